@@ -2,6 +2,7 @@ use std::cmp::Ordering;
 
 use std::sync::Arc;
 
+use crate::cmp::Cmp;
 use crate::options::Options;
 use crate::types::SSIterator;
 
@@ -33,7 +34,10 @@ pub type BlockContents = Vec<u8>;
 #[derive(Clone)]
 pub struct Block {
     block: Arc<BlockContents>,
-    opt: Options,
+    // Only the comparator is kept, not the whole `Options`: blocks live in the block cache, and the
+    // `Options` hold a reference to that cache, so keeping them would form a reference cycle that
+    // keeps the cache and all its blocks alive forever.
+    cmp: Arc<Box<dyn Cmp>>,
 }
 
 impl Block {
@@ -47,7 +51,7 @@ impl Block {
 
         BlockIter {
             block: self.block.clone(),
-            opt: self.opt.clone(),
+            cmp: self.cmp.clone(),
 
             offset: 0,
             restarts_off: restart_offset,
@@ -135,7 +139,7 @@ impl Block {
         assert!(contents.len() > 4);
         Block {
             block: Arc::new(contents),
-            opt: opt,
+            cmp: opt.cmp,
         }
     }
 }
@@ -145,7 +149,7 @@ impl Block {
 pub struct BlockIter {
     /// The underlying block contents.
     block: Arc<BlockContents>,
-    opt: Options,
+    cmp: Arc<Box<dyn Cmp>>,
     /// offset of restarts area within the block.
     restarts_off: usize,
 
@@ -352,7 +356,7 @@ impl SSIterator for BlockIter {
             let middle = (left + right + 1) / 2;
             self.seek_to_restart_point(middle);
 
-            let c = self.opt.cmp.cmp(&self.key, to);
+            let c = self.cmp.cmp(&self.key, to);
 
             if c == Ordering::Less {
                 left = middle;
@@ -367,7 +371,7 @@ impl SSIterator for BlockIter {
 
         // Linear search from here on
         while let Some((k, _)) = self.next() {
-            if self.opt.cmp.cmp(k.as_slice(), to) >= Ordering::Equal {
+            if self.cmp.cmp(k.as_slice(), to) >= Ordering::Equal {
                 return;
             }
         }
